@@ -8,5 +8,6 @@ func All() []*vk.Check {
 		C09(),
 		C14(),
 		C15(),
+		C16(),
 	}
 }
